@@ -41,6 +41,7 @@ type srvWorld struct {
 	// operations issued from inside handlers: started / returned (a hang watchdog: the deadlock detector follows
 	// mutex holders only, a cycle through a WaitGroup or a Once needs this)
 	opStarted, opReturned int
+	pendingAck            string // ACK frame that answers the emit left pending by the set-up
 }
 
 // inHandlerRun issues the operation and counts whether it came back.
@@ -88,6 +89,32 @@ var srvOps = []srvOp{
 	{"incoming-DISCONNECT", func(w *srvWorld) { w.f.In("1") }},
 	{"incoming-transport-close", func(w *srvWorld) { w.f.TransportClose(eio.ReasonTransportClose) }},
 	{"other-client-CONNECT", func(w *srvWorld) { vrig.NewFakeEIO(w.srv, "third").In("0") }},
+	// the rest of the exported surface (ninth round: the rarely used variants)
+	{"Timeout.Emit+ack", func(w *srvWorld) { w.s.Timeout(time.Second).Emit("x", 1, func(error, string) {}) }},
+	{"OffAll", func(w *srvWorld) { w.s.OffAll() }},
+	{"OnceEvent", func(w *srvWorld) { w.s.OnceEvent("e", hEvent) }},
+	{"OnError+OnDisconnecting", func(w *srvWorld) { w.s.OnError(func(error) {}); w.s.OnDisconnecting(hDisc) }},
+	{"OffError+OffDisconnecting", func(w *srvWorld) { w.s.OffError(); w.s.OffDisconnecting() }},
+	{"Connected+ID+Recovered", func(w *srvWorld) { w.s.Connected(); w.s.ID(); w.s.Recovered() }},
+	{"socket.To(r0).Emit", func(w *srvWorld) { w.s.To("r0").Emit("z", sio.Binary{7}) }},
+	{"socket.Local.Except(r0).Emit", func(w *srvWorld) { w.s.Local().Except("r0").Emit("z") }},
+	{"nsp.Sockets", func(w *srvWorld) { w.nsp.Sockets() }},
+	{"nsp.SocketsLeave", func(w *srvWorld) { w.nsp.SocketsLeave("r0") }},
+	{"nsp.In(r0).DisconnectSockets(true)", func(w *srvWorld) { w.nsp.In("r0").DisconnectSockets(true) }},
+	{"nsp.Use", func(w *srvWorld) { w.nsp.Use(func(sio.ServerSocket, *sio.Handshake) any { return nil }) }},
+	{"nsp.OnConnection", func(w *srvWorld) { w.nsp.OnConnection(func(sio.ServerSocket) {}) }},
+	{"nsp.OffAll", func(w *srvWorld) { w.nsp.OffAll() }},
+	{"nsp.OnEvent+ServerSideEmit", func(w *srvWorld) { w.nsp.OnEvent("sse", hEvent); w.nsp.ServerSideEmit("sse") }},
+	{"nsp.OnServerSideEmit", func(w *srvWorld) { w.nsp.OnServerSideEmit("sse") }},
+	{"nsp.Compress.Emit", func(w *srvWorld) { w.nsp.Compress(true).Emit("y", 3) }},
+	{"Server.Of(new)", func(w *srvWorld) { w.srv.Of("/new").OnConnection(func(sio.ServerSocket) {}) }},
+	{"Server.OnAnyConnection+OnNewNamespace", func(w *srvWorld) {
+		w.srv.OnAnyConnection(func(string, sio.ServerSocket) {})
+		w.srv.OnNewNamespace(func(*sio.Namespace) {})
+	}},
+	{"Server.Emit+FetchSockets", func(w *srvWorld) { w.srv.Emit("y", 4); w.srv.FetchSockets() }},
+	{"other-client-CONNECT-/new", func(w *srvWorld) { vrig.NewFakeEIO(w.srv, "fourth").In("0/new,") }},
+	{"incoming-ack-of-the-pending-emit", func(w *srvWorld) { w.f.In(w.pendingAck) }},
 }
 
 func newSrvWorld(inHandler *srvOp) *srvWorld {
@@ -129,6 +156,15 @@ func newSrvWorld(inHandler *srvOp) *srvWorld {
 	w.f2.ConnectNS("/")
 	vsched.Await(func() bool { return ready == 2 })
 	vrig.Settle(time.Second)
+	// one emit with an acknowledgement stays unanswered: "incoming-ack-of-the-pending-emit" answers it
+	w.s.Emit("pending", hAck)
+	vrig.Settle(100 * time.Millisecond)
+	w.pendingAck = `3999["none"]`
+	for _, t := range w.f.Texts() {
+		if len(t) > 12 && t[0] == '2' && t[len(t)-11:] == `["pending"]` {
+			w.pendingAck = "3" + t[1:len(t)-11] + `["ok"]`
+		}
+	}
 	return w
 }
 
@@ -219,6 +255,20 @@ var cliOps = []cliOp{
 	{"server-emits", func(w *cliWorld) { w.srv.Emit("n", 1) }},
 	{"server-emits-with-ack", func(w *cliWorld) { w.srv.Of("/").Emit("n") }},
 	{"server-disconnects-socket", func(w *cliWorld) { w.srv.DisconnectSockets(false) }},
+	// the rest of the exported surface (ninth round)
+	{"Volatile.Emit", func(w *cliWorld) { w.sock.Volatile().Emit("m", 3) }},
+	{"SetAuth+Auth+Active", func(w *cliWorld) { w.sock.SetAuth(map[string]any{"t": 1}); w.sock.Auth(); w.sock.Active() }},
+	{"OffAll", func(w *cliWorld) { w.sock.OffAll() }},
+	{"OnceEvent+OnDisconnect", func(w *cliWorld) { w.sock.OnceEvent("n", hEvent); w.sock.OnDisconnect(func(sio.Reason) {}) }},
+	{"OffConnect+OffDisconnect", func(w *cliWorld) { w.sock.OffConnect(); w.sock.OffDisconnect() }},
+	{"Manager.On*", func(w *cliWorld) {
+		w.mgr.OnReconnect(func(uint32) {})
+		w.mgr.OnceClose(func(sio.Reason, error) {})
+		w.mgr.OnError(func(error) {})
+	}},
+	{"Manager.OffAll", func(w *cliWorld) { w.mgr.OffAll() }},
+	{"Manager.Open", func(w *cliWorld) { w.mgr.Open() }},
+	{"same-namespace-Socket-again", func(w *cliWorld) { w.mgr.Socket("/", nil).Emit("m", 5) }},
 }
 
 // retryOps: the operations that meet the packet queue of a socket configured with Retries (emits are
@@ -497,7 +547,7 @@ func scenarios(tier string) []*vx.Scenario {
 	}
 	// issued from inside handlers: every operation, against two representative concurrent ones
 	for i := range srvOps {
-		if srvOps[i].name == "Server.Close" || srvOps[i].name[:3] == "inc" || srvOps[i].name == "other-client-CONNECT" {
+		if srvOps[i].name == "Server.Close" || srvOps[i].name[:3] == "inc" || strings.HasPrefix(srvOps[i].name, "other-client-CONNECT") {
 			continue
 		}
 		s = append(s, srvInHandler(srvOps[i], srvOps[0], b), srvInHandler(srvOps[i], srvOps[14], b))
